@@ -26,6 +26,21 @@ from yatiml.util import (
 logger = logging.getLogger(__name__)
 
 
+class _AliasedNode:
+    """Stands in for an anchored node where an alias refers to it.
+
+    PyYAML uses the anchored node itself there, which loses the
+    position of the alias. This keeps it, until the Loader gives every
+    reference a node of its own.
+    """
+    def __init__(
+            self, node: yaml.Node, start_mark: yaml.Mark, end_mark: yaml.Mark
+            ) -> None:
+        self.node = node
+        self.start_mark = start_mark
+        self.end_mark = end_mark
+
+
 class Loader(yaml.SafeLoader):
     """The YAtiML Loader class.
 
@@ -87,6 +102,18 @@ class Loader(yaml.SafeLoader):
                     token.value)
         return token
 
+    def compose_node(self, parent: Any, index: Any) -> Any:
+        """Hook used by PyYAML's composer to make a node.
+
+        This remembers where an alias is, so that an error about what
+        it refers to can point there rather than at the anchor.
+        """
+        if self.check_event(yaml.events.AliasEvent):
+            event = self.peek_event()
+            node = super().compose_node(parent, index)
+            return _AliasedNode(node, event.start_mark, event.end_mark)
+        return super().compose_node(parent, index)
+
     def get_single_node(self) -> yaml.Node:
         """Hook used when loading a single document.
 
@@ -139,6 +166,8 @@ class Loader(yaml.SafeLoader):
                 themselves, which need not be walked again if they
                 are referred to once more.
         """
+        if isinstance(node, _AliasedNode):
+            node = node.node
         if id(node) in checked:
             return
         if id(node) in parents:
@@ -156,7 +185,9 @@ class Loader(yaml.SafeLoader):
                 self.__reject_recursion(value_node, parents, checked)
         checked.add(id(node))
 
-    def __unshared(self, node: yaml.Node) -> yaml.Node:
+    def __unshared(
+            self, node: yaml.Node, alias: Optional[_AliasedNode] = None
+            ) -> yaml.Node:
         """Returns a copy of the node tree without shared nodes.
 
         PyYAML composes an alias as the very same node object as its
@@ -166,23 +197,32 @@ class Loader(yaml.SafeLoader):
 
         Args:
             node: The root of the (acyclic) node graph to copy.
+            alias: The alias we are copying the target of, if any. The
+                copies get its position.
 
         Returns:
             An equal tree in which every node occurs exactly once.
         """
+        if isinstance(node, _AliasedNode):
+            # the outermost alias is where this is in the document
+            return self.__unshared(node.node, alias or node)
+        start_mark = alias.start_mark if alias else node.start_mark
+        end_mark = alias.end_mark if alias else node.end_mark
         if isinstance(node, yaml.SequenceNode):
             return yaml.SequenceNode(
-                    node.tag, [self.__unshared(item) for item in node.value],
-                    node.start_mark, node.end_mark, node.flow_style)
+                    node.tag,
+                    [self.__unshared(item, alias) for item in node.value],
+                    start_mark, end_mark, node.flow_style)
         if isinstance(node, yaml.MappingNode):
             return yaml.MappingNode(
                     node.tag,
-                    [(self.__unshared(key_node), self.__unshared(value_node))
+                    [(
+                        self.__unshared(key_node, alias),
+                        self.__unshared(value_node, alias))
                         for key_node, value_node in node.value],
-                    node.start_mark, node.end_mark, node.flow_style)
+                    start_mark, end_mark, node.flow_style)
         return yaml.ScalarNode(
-                node.tag, node.value, node.start_mark, node.end_mark,
-                node.style)
+                node.tag, node.value, start_mark, end_mark, node.style)
 
     def __type_to_tag(self, type_: Type) -> str:
         """Convert a type to the corresponding YAML tag.
